@@ -13,8 +13,20 @@
 (*               of the blocks before b, then an error, nothing from b on  *)
 (*               (header marker: no item at all)                           *)
 (*   magic     : open fails                                                *)
+(*                                                                         *)
+(* "session" events (trace validation against ReaderFn.tla, the Reader at  *)
+(* the granularity of its code): the recorded call sequence of one session *)
+(* with a damaged copy - polls of the value iterator, the conversion       *)
+(* into_deser_iter at some point (also after an error), polls of the       *)
+(* deserializing iterator, polls after the end - is replayed call by call  *)
+(* on the model's transition functions Poll / Switch.  Verdict layer:      *)
+(* nothing is delivered after the first error by either iterator; the      *)
+(* delivered objects are the leading ones of the intact file and, once the *)
+(* session has reached "end", exactly those of the blocks completely       *)
+(* before the damage; the damage is reported as an error iff it must be.   *)
+(* Coverage layer (drift): every call returns what the model's Poll does.  *)
 (***************************************************************************)
-EXTENDS Container, Json, IOUtils, Known
+EXTENDS Container, ReaderFn, Json, IOUtils, Known
 
 Rec == ndJsonDeserialize(IOEnv.TRACE)
 VARIABLES l, cur
@@ -65,6 +77,60 @@ JudgeDamage(e, f) ==
               \cup If(~e.open_ok \/ e.after_err = 0, "C14:items-or-errors-after-the-first-error")
     [] e.kind = "magic" -> If(~e.open_ok, "C14:open-succeeded-with-altered-magic"))
 
+(* ---- sessions ---- *)
+FileDesc(f) ==
+  [H |-> f.bounds[1],
+   blocks |-> [i \in 1..Len(f.blocks) |->
+                 LET cb == Len(LongOfNat(f.blocks[i].count)) IN
+                 [count |-> f.blocks[i].count, cbytes |-> cb, rest |-> f.bounds[i + 1] - f.bounds[i] - cb]]]
+
+DamageOf(e, f) ==
+  CASE e.kind = "cut"    -> [cut |-> e.k, corrupt |-> NoCorrupt, magic |-> FALSE]
+    [] e.kind = "marker" -> [cut |-> f.bounds[Len(f.bounds)], corrupt |-> MarkerAt(f.bounds, e.k), magic |-> FALSE]
+    [] e.kind = "magic"  -> [cut |-> f.bounds[Len(f.bounds)], corrupt |-> NoCorrupt, magic |-> TRUE]
+
+(* replay of the recorded calls on the model: the index of the first call whose result differs from Poll's, 0 = none *)
+RECURSIVE ReplayCalls(_, _, _, _, _)
+ReplayCalls(F, D, s, calls, n) ==
+  IF n > Len(calls) THEN 0
+  ELSE LET c == calls[n] IN
+       IF c.r = "switch" THEN ReplayCalls(F, D, Switch(s, FALSE), calls, n + 1)
+       ELSE LET r == Poll(F, D, s, FALSE, Len(F.blocks) + 1) IN
+            IF r.res # c.r \/ (r.res = "item" /\ ItemsUpTo(F, r.blk - 1) + r.idx # c.ord)
+               \/ s.mode # (IF c.m = "v" THEN "value" ELSE "deser")
+            THEN n
+            ELSE ReplayCalls(F, D, r.s, calls, n + 1)
+
+JudgeSession(e, f) ==
+  LET F == FileDesc(f)
+      D == DamageOf(e, f)
+      calls == e.calls
+      polls == SelectSeq(calls, LAMBDA c : c.r # "switch")
+      errAt == {n \in 1..Len(polls) : polls[n].r = "err"}
+      firstErr == IF errAt = {} THEN 0 ELSE CHOOSE n \in errAt : \A m \in errAt : n <= m
+      items == SelectSeq(polls, LAMBDA c : c.r = "item")
+      reachedEnd == \E n \in 1..Len(polls) : polls[n].r = "end"
+      exp == ExpectedItems(F, D)
+  IN
+  IF D.corrupt = 99 /\ e.kind = "marker" THEN [fail |-> {"TOOL:offset-not-inside-a-marker"}, drift |-> {}]
+  ELSE IF e.panic THEN [fail |-> {"C14:panic"}, drift |-> {}]
+  ELSE IF ~e.open_ok
+  THEN [fail |-> If(~OpenOk(F, D), "C14:open-failed-although-header-is-complete"), drift |-> {}]
+  ELSE
+  [fail |->
+        If(OpenOk(F, D), IF e.kind = "magic" THEN "C14:open-succeeded-with-altered-magic"
+                         ELSE "C14:open-succeeded-on-file-cut-inside-header")
+     \cup If(firstErr = 0 \/ \A m \in (firstErr + 1)..Len(polls) : polls[m].r = "end",
+             "C14:items-or-errors-after-the-first-error")
+     \cup If(\A n \in 1..Len(items) : items[n].match /\ items[n].ord = n,
+             "C14:delivered-values-are-not-a-prefix-of-what-was-written")
+     \cup If(Len(items) <= exp, "C14:item-delivered-from-or-after-the-damaged-block")
+     \cup If(~reachedEnd \/ Len(items) = exp, "C14:delivered-item-count-is-not-that-of-the-complete-blocks")
+     \cup If(~reachedEnd \/ ~MustError(F, D) \/ firstErr > 0, "C14:damage-not-reported-as-error")
+     \cup If(firstErr = 0 \/ MustError(F, D), "C14:error-although-nothing-must-be-reported"),
+   drift |-> LET d == ReplayCalls(F, D, Opened(F), calls, 1) IN
+             IF OpenOk(F, D) /\ d # 0 THEN {"session-differs-from-the-reader-model"} ELSE {}]
+
 TraceInit == l = 1 /\ cur = NoFile("none")
 TrFile == /\ l <= Len(Rec) /\ Rec[l].ev = "file"
           /\ LET f == ParseFile(Rec[l].bytes) IN
@@ -75,7 +141,14 @@ TrFile == /\ l <= Len(Rec) /\ Rec[l].ev = "file"
 TrDamage == /\ l <= Len(Rec) /\ Rec[l].ev = "damage"
             /\ Report(Rec[l], IF cur.ok THEN JudgeDamage(Rec[l], cur) ELSE {})
             /\ l' = l + 1 /\ UNCHANGED cur
-TraceNext == TrFile \/ TrDamage
+TrSession == /\ l <= Len(Rec) /\ Rec[l].ev = "session"
+             /\ (IF cur.ok
+                 THEN LET r == JudgeSession(Rec[l], cur) IN
+                      IF r.fail = {} /\ r.drift = {} THEN TRUE
+                      ELSE PrintT("VERDICT " \o ToJson([id |-> Rec[l].id, fail |-> r.fail, known |-> {}, drift |-> r.drift]))
+                 ELSE TRUE)
+             /\ l' = l + 1 /\ UNCHANGED cur
+TraceNext == TrFile \/ TrDamage \/ TrSession
 TraceSpec == TraceInit /\ [][TraceNext]_tvars
 
 Consumed == IF TLCGet("stats").diameter = Len(Rec) + 1 THEN PrintT("CONSUMED " \o ToString(Len(Rec)))
